@@ -77,9 +77,14 @@ def bexpr_uses_only_in(e):
 # ---------------------------------------------------------------- executable content
 def log(label, e=None): return {"op": "log", "label": label, "e": e if e is not None else lit(0)}
 def raise_(ev): return {"op": "raise", "ev": ev.split(".") if isinstance(ev, str) else list(ev)}
-def send(ev, delay=0):
-    """<send> to the session's own external queue; delay in ms (0: immediately)"""
-    return {"op": "send", "ev": ev.split(".") if isinstance(ev, str) else list(ev), "delay": int(delay)}
+def send(ev, delay=0, sid=""):
+    """<send> to the session's own external queue; delay in ms (0: immediately); sid: sendid ("" = none)"""
+    return {"op": "send", "ev": ev.split(".") if isinstance(ev, str) else list(ev), "delay": int(delay), "sid": sid}
+
+
+def cancel(sid):
+    """<cancel sendid=...>: every pending delayed event sent with that id is dropped"""
+    return {"op": "cancel", "sid": sid}
 def assign(v, e): return {"op": "assign", "var": v, "e": e}
 def if_(*arms): return {"op": "if", "arms": [{"cond": c, "body": list(b)} for c, b in arms]}
 def fault(kind): return {"op": "fault", "kind": kind}
@@ -352,10 +357,13 @@ class Chart:
             elif o == "raise":
                 out.append('%s<raise event=%s/>' % (p, quoteattr(".".join(op["ev"]))))
             elif o == "send":
+                idattr = ' id=%s' % quoteattr(op["sid"]) if op.get("sid") else ""
                 if op.get("delay", 0):
-                    out.append('%s<send event=%s delay="%dms"/>' % (p, quoteattr(".".join(op["ev"])), op["delay"]))
+                    out.append('%s<send event=%s delay="%dms"%s/>' % (p, quoteattr(".".join(op["ev"])), op["delay"], idattr))
                 else:
-                    out.append('%s<send event=%s/>' % (p, quoteattr(".".join(op["ev"]))))
+                    out.append('%s<send event=%s%s/>' % (p, quoteattr(".".join(op["ev"])), idattr))
+            elif o == "cancel":
+                out.append('%s<cancel sendid=%s/>' % (p, quoteattr(op["sid"])))
             elif o == "assign":
                 out.append('%s<assign location=%s expr=%s/>' % (p, quoteattr(op["var"]),
                                                                  quoteattr(render_iexpr(op["e"], dm))))
